@@ -140,6 +140,13 @@ func (h *NFSProcedureHandler) handleSetattr(body io.Reader, reply *RPCReply, aut
 		}
 	}
 
+	// From the copy taken here until SetAttr has applied it no other SETATTR may
+	// change node.attrs: SetAttr applies every field in which the copy differs from
+	// the attrs current at that moment, so a request racing with a root chown would
+	// put the previous owner back on behalf of a caller that set no owner at all.
+	node.setattrMu.Lock()
+	defer node.setattrMu.Unlock()
+
 	node.mu.RLock()
 	if node.attrs == nil {
 		node.mu.RUnlock()
